@@ -43,9 +43,17 @@ CLAIMED = {
              text="Every public method and operator of the five ppv-null types equals plain wrapping scalar arithmetic and cannot panic (debug-profile overflow checks are part of every obligation).",
              note="Preconditions as stated in the property: rotation amounts 1..bits-1, valid lane indices, slices of the vector's length.",
              ref="DESIGN.md 4 C19"),
+ "C03": dict(technique="Kani contracts: per-backend leaf contracts of every vector operation (C12/C13) + per-backend wiring of every dispatching algorithm against ONE backend-independent specification, driven through the real dispatch!/dispatch_light128!/dispatch_light256! arms over a CPUID model, plus the no_simd build",
+             text="ChaCha narrow+wide, BLAKE-256/512 compress+finalize and JH F8 are each proved equal to a single backend-independent specification on SSE2, SSSE3, SSE4.1, AVX(=SSE4.1 types), AVX2 and the portable backend; equal to the same function implies bit-identical pairwise; panics (unimplemented!) are failed obligations.",
+             note="AVX vs SSE4.1 differ only in #[target_feature] code generation (assumed equal). The no-std compile-time dispatch selects the same fn_impl::<M> instantiations by cfg!(target_feature) constants: covered by argument, not run (DESIGN.md 4 C03). quick: leaf ops of the vector types the algorithms use + wiring at the extreme CPU levels; thorough: everything.",
+             ref="DESIGN.md 4 C03"),
+ "C16": dict(technique="Kani memory-safety obligations (pointer/bounds/memcpy-region checks) inside contract harnesses that hand each byte-slice consumer a buffer of exactly the contract size; aligned-access intrinsics stubbed as must-be-unreachable",
+             text="Reads stay inside the input and writes inside the output for vector byte load/store on every backend (exact 16/32/64-byte buffers), ChaCha apply shapes, hash update/finalize shapes, BLAKE/JH compression on exact-size blocks (JH f8 takes a raw pointer), Threefish block I/O; results are functions of slice contents only (CBMC objects have no address). No aligned-access intrinsic is reachable from these entry points.",
+             note="Alignment FAULTS are not decidable by either verifier (DESIGN.md 4 C16): the claim is the sufficient reachability contract plus the bounds proofs; the guard-page native replay described in the design is not built. Groestl's tf512/tf1024 raw-pointer loads are not covered (AES-NI model not built). Slice APIs are bounded in per-call length.",
+             ref="DESIGN.md 4 C16"),
  "C04": dict(technique="Kani contracts on the mode of operation: finalize/update/default/reset from an arbitrary state with put_block as uninterpreted function + call log",
-             text="Padding (0x80, zeros, 0x01/0x00 marker, 0x81 when they coincide, 64/128-bit big-endian length), one-vs-two final blocks, bit counter excluding padding and 0 for a padding-only block, chaining, IVs and truncated big-endian output are proved for a symbolic chaining value and bit counter, so for every message length.",
-             note="The compression function (G function, sigma schedule, rounds) versus the BLAKE specification is NOT yet under contract in this build (planned: round32/round64 leaf + put_block wiring); it is assumed here. Shapes: quick = boundary fills, thorough = every fill.",
+             text="Compression function == BLAKE specification (G, sigma schedule, constants, counter words, 14/16 rounds, feed-forward) on every backend; padding (0x80, zeros, 0x01/0x00 marker, 0x81 when they coincide, 64/128-bit big-endian length), one-vs-two final blocks, bit counter excluding padding and 0 for a padding-only block, chaining, IVs and truncated big-endian output are proved for a symbolic chaining value and bit counter, so for every message length.",
+             note="Compression function: round32/round64 and (un)diagonalize leaf contracts per backend, lemma document formulation == row formulation (real G, all ten sigma rows), put_block wiring through the real dispatch with the round layer as uninterpreted function. Shapes: quick = boundary fills, thorough = every fill.",
              ref="DESIGN.md 4 C04"),
  "C05": dict(technique="Kani contracts on the mode of operation with process_block as contract stub (UBI step uninterpreted) + Threefish contracts (C09)",
              text="Configuration UBI block carrying N, lazy message UBI with first/final flags and byte position, single zero block for the empty message, counter-mode output blocks truncated to N bytes, for output sizes N in a stated finite set, from an arbitrary state (symbolic chaining value and position).",
@@ -53,7 +61,7 @@ CLAIMED = {
              ref="DESIGN.md 4 C05"),
  "C06": dict(technique="Kani contracts on the mode of operation with Compressor::input as uninterpreted function + call log",
              text="Padding (one block iff block-aligned, else two), 128-bit big-endian bit length, chaining, output = tail of the 1024-bit state, byte counter exact -- for a symbolic chaining value and byte count.",
-             note="NOT decided: bit-sliced F8 == the specification's E8 and the IV constants; assumed (pinned on this host by the repository's 321 KATs). DESIGN.md 4 C06.",
+             note="F8: ss / l leaf contracts per backend and the wiring of Compressor::input (42 rounds, round-constant selection, swap schedule, message XORs) through the real dispatch. NOT decided: bit-sliced F8 == the specification's nibble-oriented E8, the round-constant table and the IV constants; assumed (pinned on this host by the repository's 321 KATs). DESIGN.md 4 C06.",
              ref="DESIGN.md 4 C06"),
  "C07": dict(technique="Kani contracts on the mode of operation with init/tf/of as uninterpreted functions + call log",
              text="IV = output size big-endian, padding with the 64-bit big-endian block count including padding blocks for every 64-bit counter value, one-vs-two final blocks at the <=8-bytes-left boundary, output transformation and truncation windows, reset of the truncated variants.",
@@ -69,10 +77,7 @@ CLAIMED = {
              ref="DESIGN.md 4 C17"),
 }
 NOT_YET = "check under construction in this session; not claimed until it is sound and green"
-NA_MORE = {
- "C03": "assembled from per-backend obligations of C12/C13/C01/C14; the BLAKE and JH per-backend wiring is not built yet, so not claimed as a whole",
- "C16": "bounds half is checked inside every Kani harness; the alignment/guard-page half is not decidable by either verifier (DESIGN.md 4 C16); not claimed yet",
-}
+NA_MORE = {}
 NA = {
  "C18": "contracts cannot express it: Kani has no threads, Verus would need its permission types on lazy_static/std_detect internals (DESIGN.md 4 C18)",
  "C20": "whether a feature combination compiles is decided by rustc, not by a contract on any function (DESIGN.md 4 C20)",
